@@ -30,3 +30,23 @@ func VerifNewResumableReader(ctx context.Context, client VerifLTXFileOpener, lev
 func (r *Replica) VerifSyncLimited(ctx context.Context, maxSyncLTXFiles int) error {
 	return r.sync(ctx, maxSyncLTXFiles)
 }
+
+// VerifMaxLTXCache returns the cached max LTX file info of a level (the cache
+// behind Compactor.CacheGetter / CacheSetter).
+func (db *DB) VerifMaxLTXCache(level int) (minTXID, maxTXID ltx.TXID, ok bool) {
+	db.maxLTXFileInfos.Lock()
+	defer db.maxLTXFileInfos.Unlock()
+	info, ok := db.maxLTXFileInfos.m[level]
+	if !ok || info == nil {
+		return 0, 0, false
+	}
+	return info.MinTXID, info.MaxTXID, true
+}
+
+// VerifClearMaxLTXCache forgets the cached max LTX file info of a level (what a
+// process restart does).
+func (db *DB) VerifClearMaxLTXCache(level int) {
+	db.maxLTXFileInfos.Lock()
+	defer db.maxLTXFileInfos.Unlock()
+	delete(db.maxLTXFileInfos.m, level)
+}
